@@ -3,6 +3,7 @@
 #   1. tendermint rpc/client/httpclient.go  + SimTxLookup hook (the only socket in posmint: ante.go's tx-index lookup)
 #   2. tendermint node/node.go              + NewSimNode constructor
 #   3. $GOROOT/src/runtime/map.go           + seedable map iteration order / hash seed (replica divergence search)
+#   4. $GOROOT/src/time/time.go             + settable wall clock (time.SetSimNow): replicas run with skewed clocks
 # Nothing in /repo is touched. The originals come from the module cache and GOROOT.
 set -euo pipefail
 export GOFLAGS=-mod=mod GOPROXY=off GOSUMDB=off GOTOOLCHAIN=local
@@ -87,14 +88,48 @@ func simSetMapSeed(on bool, seed uint64) {
 open(sys.argv[2],"w").write(s)
 EOF
 
-python3 - "$OUT" "$TM" "$GOROOT_DIR" "$MAPSEAM" <<'EOF'
+# ---- 4. time/time.go: a settable wall clock (replicas with skewed clocks must still agree)
+src="$GOROOT_DIR/src/time/time.go"
+dst="$OUT/time_time.go"
+CLOCKSEAM=1
+python3 - "$src" "$dst" <<'EOF' || CLOCKSEAM=0
+import sys
+s=open(sys.argv[1]).read()
+needle="func Now() Time {\n\tsec, nsec, mono := now()\n"
+if s.count(needle)!=1 or 'import (' not in s:
+    sys.exit(1)
+s=s.replace(needle,"func Now() Time {\n\tif simNowOn.Load() != 0 {\n\t\tn := simNowNanos.Load()\n\t\treturn unixTime(n/1e9, int32(n%1e9))\n\t}\n\tsec, nsec, mono := now()\n")
+s=s.replace('import (','import (\n\t"sync/atomic"',1)
+s+="""
+// ---- /verif simulator seam: a settable wall clock.
+var simNowOn atomic.Int32
+var simNowNanos atomic.Int64
+
+// SetSimNow makes Now() return the given instant (on) or the real clock again (off).
+func SetSimNow(on bool, unixNano int64) {
+	simNowNanos.Store(unixNano)
+	if on {
+		simNowOn.Store(1)
+	} else {
+		simNowOn.Store(0)
+	}
+}
+"""
+open(sys.argv[2],"w").write(s)
+EOF
+
+python3 - "$OUT" "$TM" "$GOROOT_DIR" "$MAPSEAM" "$CLOCKSEAM" <<'EOF'
 import sys,json
 out,tm,goroot,mapseam=sys.argv[1:5]
+clockseam=sys.argv[5]
 rep={tm+"/rpc/client/httpclient.go":out+"/tm_httpclient.go",
      tm+"/node/node.go":out+"/tm_node.go"}
 if mapseam=="1":
     rep[goroot+"/src/runtime/map.go"]=out+"/runtime_map.go"
+if clockseam=="1":
+    rep[goroot+"/src/time/time.go"]=out+"/time_time.go"
 json.dump({"Replace":rep},open(out+"/../overlay.json","w"),indent=1)
 open(out+"/../mapseam","w").write(mapseam+"\n")
+open(out+"/../clockseam","w").write(clockseam+"\n")
 EOF
-echo "overlay generated: mapseam=$MAPSEAM"
+echo "overlay generated: mapseam=$MAPSEAM clockseam=$CLOCKSEAM"
